@@ -120,6 +120,16 @@ def directed(default_params):
             steps.append({"op": "rename.permute", "slot": 0,
                           "perms": [[0, a], [0, b], [0, a + b]]})
     out.append(("permute-seq", P, steps))
+    # the same sequences written as Permutation objects / as a PermutationProduct, with a
+    # transposition occurring twice and others in between (P_ij P_jk P_ij = P_ik)
+    for pform in (1, 2):
+        steps = [_big_expr_step()]
+        for a in range(0, 40, 3):
+            for b in range(1, 40, 7):
+                steps.append({"op": "rename.permute", "slot": 0, "pform": pform,
+                              "rep": (a + b) % 3 != 0,
+                              "perms": [[0, a], [0, b], [0, a + b]][:2 + (a + b) % 2]})
+        out.append((f"permute-forms-{pform}", P, steps))
     # Term-level operations on long-lived Term objects with in-place use of the results
     steps = [_expr_step(), _big_expr_step(1)]
     for k in range(0, 36):
@@ -192,6 +202,28 @@ def directed(default_params):
                       {"op": "rename.sc", "slot": 0, "route": route, "keep": True},
                       {"op": "rename.copy", "slot": 0, "route": route, "how": "gen"}]
     out.append(("unexpanded-input", P, steps))
+    # brackets nested two levels deep:  W_j (A_kj + B_l (C_lkj + D_lkj)),  with provided
+    # targets and under the Einstein convention
+    steps = []
+    nested = [
+        ([{"pref": [1, 1], "atoms": [["nst", "A", ["k", "j"]]]},
+          {"pref": [1, 1], "atoms": [["nst", "C", ["l", "k", "j"]]]},
+          {"pref": [1, 1], "atoms": [["nst", "D", ["l", "k", "j"]]]}],
+         [["nst", "W", ["j"]], ["nst", "B", ["l"]]], ["k"]),
+        ([{"pref": [1, 1], "atoms": [["amp", "X", ["a"], ["i"], 0]]},
+          {"pref": [1, 2], "atoms": [["amp", "Y", ["a", "c"], ["i", "m"], 0]]},
+          {"pref": [-1, 1], "atoms": [["amp", "t1", ["a", "c"], ["i", "m"], 0]]},
+          {"pref": [3, 1], "atoms": [["ast", "V", ["a", "c"], ["i", "m"], 0]]}],
+         [["nst", "w", ["l", "l"]], ["ast", "f", ["m"], ["c"], 0]], ["i", "a"]),
+    ]
+    for terms, fac, tg in nested:
+        steps.append({"op": "build", "slot": 0, "targets": tg, "terms": terms, "factor": fac,
+                      "nest": 1})
+        for route in (6, 0, 2, 4):
+            steps += [{"op": "rename.gen", "slot": 0, "route": route, "keep": True},
+                      {"op": "rename.sc", "slot": 0, "route": route, "keep": True},
+                      {"op": "rename.copy", "slot": 0, "route": route, "how": "gen"}]
+    out.append(("nested-input", P, steps))
     # one request mixing indices with and without spin, the spin at every position
     steps = []
     for names in (["i", "j"], ["a", "b", "c"], ["k3", "l3"], ["p", "i", "a"]):
